@@ -17,7 +17,7 @@ func init() {
 		ID:    "C08",
 		Title: "Criteria mean the same with or without indexes and pruning",
 		Decides: "the Bloom filter probes the same (word, bit) sequence when adding and when testing an item (canonical SSA expressions of the probe index, the mask and the probe count are equal); part pruning by time / key range discards a part exactly when its range is disjoint from the query range, over every ordering of the four endpoints; " +
-			"every place that dispatches on a criteria operator handles the same operator set (index filter builders, in-scan tag filters, inverted-index query builder, secondary-index tag filter); the trace-id part filter skips a part only when no requested id may be contained; block/primary-block time bounds are maintained as running min/max against their own accumulator, and a function that re-arms an accumulator's first-value guard also resets or consumes that accumulator (a part-level range is not restarted per primary block); the primary-block search of measure, stream and trace part iterators starts at the block that may hold the head of a straddling series (predicate: key <= first key; result n-1); the stream element index accumulates the id list and the timestamp list of every matching series together.; (stream skipping index) a block ruled out by the block filter advances the iterator by one block, never to the next series; the dictionary of an array-typed tag is never installed as a block filter; block filters are probed with the literal's stored encoding (Bytes), never its display text; every filter node handed out as index.Filter declares ShouldSkip / Execute itself (no method satisfied only by a nil embedded interface); an OR node is not built from a DummyFilter operand ('true OR x' is true); the dictionary filter's stored values are never mutated while being consulted",
+			"every place that dispatches on a criteria operator handles the same operator set (index filter builders, in-scan tag filters, inverted-index query builder, secondary-index tag filter); the trace-id part filter skips a part only when no requested id may be contained; block/primary-block time bounds are maintained as running min/max against their own accumulator, and a function that re-arms an accumulator's first-value guard also resets or consumes that accumulator (a part-level range is not restarted per primary block); the primary-block search of measure, stream and trace part iterators starts at the block that may hold the head of a straddling series (predicate: key <= first key; result n-1); the stream element index accumulates the id list and the timestamp list of every matching series together.; (stream skipping index) a block ruled out by the block filter advances the iterator by one block, never to the next series; the dictionary of an array-typed tag is never installed as a block filter; block filters are probed with the literal's stored encoding (Bytes), never its display text; every filter node handed out as index.Filter declares ShouldSkip / Execute itself (no method satisfied only by a nil embedded interface); an OR node is not built from a DummyFilter operand ('true OR x' is true); the dictionary filter's stored values are never mutated while being consulted; a stream block whose recorded min or max of a tag is empty is never pruned by a range condition",
 		NotDecided: "that the rows selected are exactly those satisfying the predicate, analyzer/tokenizer semantics of the inverted index, the block-level searches inside a primary block (findBlock).",
 		Technique:  "canonical symbolic expression equality between sibling functions (E8), relational world pruning on range endpoints, case-set agreement across packages, guarded accumulator updates; truth table of the binary-search predicate; per-iteration path enumeration with phi resolution (two accumulators move together); re-arm/consume agreement of first-value guards",
 		Run:        runC08,
@@ -696,6 +696,52 @@ func runC08(c *core.Ctx) {
 				}
 			}
 			r.Floor(rule, 3)
+		}
+
+		// a block without recorded min/max for a tag (blocks rewritten by the merger carry none) is never pruned by a
+		// range condition: in the world "max is empty" the "skip" answer of Range is unreachable
+		if f := r.fn("c08.range-needs-recorded-bounds", sibS.pkg, "(*tagFamilyFilters).Range"); f != nil {
+			rule := "c08.range-needs-recorded-bounds"
+			skip := func(in ssa.Instruction) bool {
+				ret, ok := in.(*ssa.Return)
+				return ok && len(ret.Results) == 2 && ssax.IsTrue(ret.Results[0])
+			}
+			for _, bound := range []string{"min", "max"} {
+				bnd := bound
+				atom := func(v ssa.Value) (bool, bool) {
+					bo, ok := v.(*ssa.BinOp)
+					if !ok {
+						return false, false
+					}
+					c, isC := bo.X.(*ssa.Call)
+					k, isK := bo.Y.(*ssa.Const)
+					if !isC || !isK || k.Value == nil {
+						return false, false
+					}
+					b, isB := c.Call.Value.(*ssa.Builtin)
+					if !isB || b.Name() != "len" || !strings.HasSuffix(ssax.Path(c.Call.Args[0]), "."+bnd) {
+						return false, false
+					}
+					// len(x) is 0 in this world
+					switch bo.Op {
+					case token.EQL:
+						return k.Int64() == 0, true
+					case token.NEQ:
+						return k.Int64() != 0, true
+					case token.GTR:
+						return 0 > k.Int64(), true
+					case token.LSS:
+						return 0 < k.Int64(), true
+					}
+					return false, false
+				}
+				construct := fmt.Sprintf("%s: no skip when the recorded %s of the tag is empty", ssax.FuncName(f), bnd)
+				if tgt, path, found := worldSearch(f, nil, skip, atom); found {
+					r.Violate(rule, construct, r.pos(tgt), fmt.Sprintf("with an empty %s the function can still answer 'skip' (blocks %s): an empty bound compares below every 8-byte value, so every range condition prunes every block the merger rewrote and the query returns nothing from merged parts", bnd, blocksStr(path)))
+				} else {
+					r.Hold(rule, construct, r.fpos(f), "")
+				}
+			}
 		}
 
 		// stream element index: the matched element ids and the matched timestamps are accumulated together
